@@ -8,7 +8,7 @@
    `arity_fn` are GENERATED from src/eval.rs on every run (tools/gen_builtins.py). *)
 From Coq Require Import NArith List String Bool.
 From Garden Require Import Sandbox SandboxProps gen.Builtins.
-From Garden Require Machine Session SessionProps Discipline.
+From Garden Require Machine Session SessionProps Discipline Ref Refine RefineProps.
 Import ListNotations.
 Open Scope string_scope.
 
@@ -77,8 +77,10 @@ Print Assumptions builtin_index_guard_nonvacuous.
 
 (* ---- machine-level part: the evaluation loop itself never crashes ---------
    (proved in Discipline.v on the evaluator model Machine.v, for well-formed
-   programs of the fragment without for / break / continue / return / closure
-   literals / match; the arithmetic part is ArithTables.no_panic_lemma, pinned in
+   programs of the fragment Session.wf: everything of the modelled core
+   language EXCEPT for / break / continue / closure literals -- `match` and
+   `return` (anywhere, also in operand position) are included since the
+   widening of Session.wf; the arithmetic part is ArithTables.no_panic_lemma, pinned in
    Properties/C04.v as int_binop_no_panic) *)
 Theorem machine_step_never_crashes_partial : forall p,
   Session.wf_prog p = true -> Session.globals_ok p = true -> Session.globals_noint p = true ->
@@ -92,3 +94,35 @@ Theorem machine_run_never_crashes_partial : forall p exprs,
   forall n, Machine.run p n (Machine.init_state exprs None None) <> Machine.RCrashed.
 Proof. intros p exprs W G N WE. apply Discipline.run_no_crash_lemma; [repeat split; assumption|exact WE]. Qed.
 Print Assumptions machine_run_never_crashes_partial.
+
+(* the widened fragment: `match` and `return` are well formed (Session.wf) *)
+Example discipline_fragment_has_match_and_return :
+  let mt u := {| Machine.used := u; Machine.pstart := 0%N; Machine.pend := 0%N |} in
+  Session.wf_all_used
+    [ Machine.EMatch (mt true) (Machine.EVar (mt true) 5%N)
+        [ (6%N, (0, 0)%N, Some 7%N, [Machine.EInt (mt false) BinNums.Z0; Machine.EVar (mt true) 7%N]);
+          (0%N, (0, 0)%N, None, [Machine.EReturn (mt true) (Some (Machine.EInt (mt true) BinNums.Z0))]) ];
+      Machine.EBin (mt true) (Machine.BInt Arith.OAdd) (Machine.EInt (mt true) BinNums.Z0)
+        (Machine.EReturn (mt true) None) ] = true /\
+  Session.wf (Machine.EFor (mt true) 5%N (Machine.EVar (mt true) 6%N) []) = false /\
+  Session.wf (Machine.EBreak (mt false)) = false.
+Proof. repeat split; reflexivity. Qed.
+Print Assumptions discipline_fragment_has_match_and_return.
+
+(* For the constructs Session.wf still excludes (for, break / continue in
+   statement position, closure literals and closure calls) crash-freedom is
+   available on the runs the reference semantics covers: for every program of
+   the refinement fragment (Refine.in_fragment, Properties/C05.v) on which
+   Ref.v terminates with a value or a runtime error, the machine run never
+   crashes and never leaves the model, WHATEVER the fuel.  (Missing for a full
+   statement on that fragment: diverging runs, and states other than the
+   initial one.) *)
+Theorem machine_run_never_crashes_when_ref_terminates_partial : forall p fuel exprs r s',
+  Refine.prog_good p = true ->
+  forallb Refine.in_fragment exprs = true -> Refine.well_annotated_toplevel exprs = true ->
+  Ref.ref_run p fuel exprs = (r, s') ->
+  (exists v, r = Ref.Ok v) \/ (exists k, r = Ref.Ctl (Ref.CErr k)) ->
+  forall n, Machine.run p n (Machine.init_state exprs None None) <> Machine.RCrashed /\
+            Machine.run p n (Machine.init_state exprs None None) <> Machine.RUnsupported.
+Proof. exact RefineProps.run_never_crashes_when_ref_terminates. Qed.
+Print Assumptions machine_run_never_crashes_when_ref_terminates_partial.
